@@ -9,8 +9,8 @@
     create <Type> <nameHex> <ioe> <tmplEnc> <attrsEnc> | now= parts= cfg= ok= parents= file= attrs= <state>
     delete <Type> <nameHex> <cascade> | found= ok= <state>
     X <signal> <operation line>          the worker process died executing that operation
-    (create/delete lines may end in ` http`: the call went through PUT/DELETE /v1/objects/… and HttpHandler::ProcessRequest)
-    <state> = objs=<T:nameHex:api:active:hash,…> items=<T:nameHex,…> files=<hex,…> glob=<hash>
+    (create lines may end in ` httpn`: request body without an "attrs" member; create/delete lines may end in ` http`: the call went through PUT/DELETE /v1/objects/… and HttpHandler::ProcessRequest)
+    <state> = objs=<T:nameHex:api:active:hash:reg,…> items=<T:nameHex,…> files=<hex,…> glob=<hash>
   Output: MISMATCH / SPECFAIL / BADLINE lines and a final STATS line.
 -/
 import IcingaModel.Common.Proto
@@ -139,11 +139,12 @@ def parseKeyEnt (s : String) : Option Key :=
 
 def parseObjEnt (s : String) : Option OObj :=
   match s.splitOn ":" with
-  | [t, n, a, ac, h] => do
+  | [t, n, a, ac, h, rg] => do
     let n ← unhex n
     let a ← parseBool? a
     let ac ← parseBool? ac
-    pure { key := ⟨S t, n⟩, api := a, active := ac, hash := S h }
+    let rg ← parseBool? rg
+    pure { key := ⟨S t, n⟩, api := a, active := ac, hash := S h, reg := rg }
   | _ => none
 
 def kvOf (ws : List String) : List (String × String) :=
@@ -213,16 +214,24 @@ end
 /-- which recorded hazards (known_findings.json) the supplied input contains; appended to the clause name so
     that failures are grouped (and shrunk, and classified) per hazard combination -/
 def hazards (i : CreateIn) : String :=
-  let nul := hasNul (.dict (i.attrs.map (fun kv => (([] : Str), kv.2)))) || i.attrs.any (fun kv => kv.1.contains chNUL)
+  let nul := hasNul (.dict (i.attrs.map (fun kv => (([] : Str), kv.2)))) || i.attrs.any (fun kv => kv.1.contains chNUL) ||
+    i.name.contains chNUL || i.tmpl.any (·.contains chNUL)
+  -- F-C17i: a FileLogger whose log file cannot be opened (`Start()` throws)
+  let start := i.ty == S "FileLogger" && i.attrs.any (fun kv => kv.1 == S "path" &&
+    (match kv.2 with | .str p => (S "/nonexistent-c17/").isPrefixOf p | _ => false))
   (if (i.attrs.any (fun kv => hasLongNum kv.2)) then "+num" else "") ++
-  (if nul then "+nul" else "")
+  (if nul then "+nul" else "") ++
+  (if start then "+start" else "")
 
 structure DSt where
   types : List TypeInfo := []
+  plurals : List (Str × Str) := []
   before : World := default
   st : St := ⟨[], [], [], [], []⟩
   deps : List (Key × Key) := []
   fileOf : List (Key × Str) := []
+  /-- the live objects a create CALL of this case produced -/
+  created : List Key := []
   caseNo : Nat := 0
   steps : Nat := 0
   creates : Nat := 0
@@ -259,11 +268,12 @@ def stOfWorld (w : World) (fileOf : List (Key × Str)) (deps : List (Key × Key)
 def sortKeys (ks : List Key) : List String := (ks.map (fun k => showS k.ty ++ ":" ++ hexOf k.name)).toArray.qsort (· < ·) |>.toList
 
 def viewSt (st : St) : List String × List String :=
-  ((st.objs.map (fun o => showS o.key.ty ++ ":" ++ hexOf o.key.name ++ ":" ++ showBool o.api ++ ":" ++ showBool o.active)).toArray.qsort (· < ·) |>.toList,
+  -- every object of the model can be looked up by its name (the object list IS the registry)
+  ((st.objs.map (fun o => showS o.key.ty ++ ":" ++ hexOf o.key.name ++ ":" ++ showBool o.api ++ ":" ++ showBool o.active ++ ":" ++ showBool true)).toArray.qsort (· < ·) |>.toList,
    (st.files.map hexOf).toArray.qsort (· < ·) |>.toList)
 
 def viewWorld (w : World) : List String × List String :=
-  ((w.objs.map (fun o => showS o.key.ty ++ ":" ++ hexOf o.key.name ++ ":" ++ showBool o.api ++ ":" ++ showBool o.active)).toArray.qsort (· < ·) |>.toList,
+  ((w.objs.map (fun o => showS o.key.ty ++ ":" ++ hexOf o.key.name ++ ":" ++ showBool o.api ++ ":" ++ showBool o.active ++ ":" ++ showBool o.reg)).toArray.qsort (· < ·) |>.toList,
    (w.files.map hexOf).toArray.qsort (· < ·) |>.toList)
 
 def mismatch (d : DSt) (n : Nat) (op what : String) : IO DSt := do
@@ -285,26 +295,28 @@ def handle (d : DSt) (n : Nat) (line : String) : IO DSt := do
     let kv := kvOf rest
     let cfg := (splitList ((getKV kv "cfg").getD "-")).map S
     let other := (splitList ((getKV kv "other").getD "-")).map S
-    return { d with types := { name := S ty, cfg := cfg, other := other } :: d.types }
+    return { d with types := { name := S ty, cfg := cfg, other := other } :: d.types,
+                    plurals := (S ty, S ((getKV kv "plural").getD "?")) :: d.plurals }
   | "C" :: _ =>
     match parseWorld kv with
     | some w =>
-      return { d with before := w, st := stOfWorld w [] [], deps := [], fileOf := [], caseNo := d.caseNo + 1,
+      return { d with before := w, st := stOfWorld w [] [], deps := [], fileOf := [], created := [], caseNo := d.caseNo + 1,
                       caseInteresting := false, caseFailed := [], tainted := false }
     | none => IO.println s!"BADLINE line={n}"; return d
-  | "X" :: sig :: _ =>
+  | "X" :: _ :: rest =>
     -- the process executing the operations died in this operation
     let d := { d with crashes := d.crashes + 1 }
-    specfail d n ("no_crash" ++ (if sig == "" then "" else ""))
+    -- F-C17h: a create request whose body has no "attrs" member
+    specfail d n ("no_crash" ++ (if rest.head? == some "create" && rest.getLast? == some "httpn" then "+noattrs" else ""))
   | "create" :: ty :: nameH :: ioe :: tmplE :: attrsE :: via =>
-    if via != [] && via != ["http"] then IO.println s!"BADLINE line={n}"; return d else
-    let d := if via == ["http"] then { d with httpOps := d.httpOps + 1 } else d
+    if via != [] && via != ["http"] && via != ["httpn"] then IO.println s!"BADLINE line={n}"; return d else
+    let d := if via != [] then { d with httpOps := d.httpOps + 1 } else d
     let inp : Option CreateIn := do
       let name ← unhex nameH
       let ioe ← parseBool? ioe
       let tmpl ← decStrArr tmplE
       let attrs ← decDict attrsE
-      pure { ty := S ty, name := name, ioe := ioe, tmpl := tmpl, attrs := attrs }
+      pure { ty := S ty, plural := ((d.plurals.find? (·.1 = S ty)).map (·.2)).getD (S "?"), name := name, ioe := ioe, tmpl := tmpl, attrs := attrs }
     let obs : Option (CreateObs × List Key) := do
       let now ← (getKV kv "now") >>= (fun s => parseDecText s.toList)
       let parts ← match getKV kv "parts" with
@@ -359,7 +371,8 @@ def handle (d : DSt) (n : Nat) (line : String) : IO DSt := do
         let present := o.after.has k
         let fault : Fault := match o.res with
           | some .ok => if present then .none else .ignored
-          | some .fail => .commitFails
+          -- a failed call that nevertheless left the new object behind: the exception out of `ActivateItems`
+          | some .fail => if present && !existed then .activateThrows else .commitFails
           | some .threw => .writeThrows
           | none => .pathBroken
         let path := o.file.getD (S "?")
@@ -411,7 +424,8 @@ def handle (d : DSt) (n : Nat) (line : String) : IO DSt := do
         let fileOf := match o.file with
           | some p => if present && !existed then (k, p) :: d.fileOf else d.fileOf
           | none => d.fileOf
-        return { d with before := o.after, deps := deps, fileOf := fileOf, st := stOfWorld o.after fileOf deps }
+        let created := if o.res == some .ok && present && !existed then k :: d.created else d.created
+        return { d with before := o.after, deps := deps, fileOf := fileOf, created := created, st := stOfWorld o.after fileOf deps }
     | _, _ => IO.println s!"BADLINE line={n}"; return d
   | "delete" :: ty :: nameH :: casc :: via =>
     if via != [] && via != ["http"] then IO.println s!"BADLINE line={n}"; return d else
@@ -432,8 +446,7 @@ def handle (d : DSt) (n : Nat) (line : String) : IO DSt := do
           d ← mismatch d n "delete-result" s!"impl={repr res} model={repr mres}"
         if !d.tainted && viewSt mst != viewWorld after then
           d ← mismatch d n "delete-state" s!"impl={viewWorld after} model={viewSt mst}"
-      let file := (d.fileOf.find? (·.1 = k)).map (·.2)
-      match specDelete d.before k c found res file d.deps after with
+      match specDelete d.before k c found res d.created d.fileOf d.deps after with
       | some cl => d ← specfail d n cl
       | none => pure ()
       if found then
@@ -448,7 +461,8 @@ def handle (d : DSt) (n : Nat) (line : String) : IO DSt := do
           d := { d with caseInteresting := true, nontrivial := d.nontrivial + 1 }
       let deps := d.deps.filter (fun e => after.has e.1 && after.has e.2)
       let fileOf := d.fileOf.filter (fun e => after.has e.1)
-      return { d with before := after, deps := deps, fileOf := fileOf, st := stOfWorld after fileOf deps }
+      let created := d.created.filter (fun e => after.has e)
+      return { d with before := after, deps := deps, fileOf := fileOf, created := created, st := stOfWorld after fileOf deps }
     | none => IO.println s!"BADLINE line={n}"; return d
   | _ => IO.println s!"BADLINE line={n}"; return d
 
